@@ -293,6 +293,7 @@ static void step(int pi, int op, int id, int idx)
         subj_apply(on, k, e->o[k], op, id, idx, &exp, &before);
         readback(on, k, e->o[k], &after);
     }
+    cx_toarray_empty_agree(on);
     /* (c) observational interchangeability: every class produced the model's results above, hence the same results */
     vh_evals(1);
     e->s = after;
